@@ -131,6 +131,35 @@ OTHER_LAYOUTS = {
     'zh-cn': {'iso': lambda d: d.isoformat(), 'yyyy年m月d日': lambda d: '%d年%d月%d日' % (d.year, d.month, d.day),
               'yyyy/m/d': lambda d: '%d/%d/%d' % (d.year, d.month, d.day)},
 }
+def _first_only(fmt, lang):
+    return lambda d: (fmt % (MONTHS[lang][d.month - 1], d.year)) if d.day == 1 else None
+
+
+def _en_ordinal_word(d):
+    from gens import numwords
+    return numwords.en_ord(d.day)
+
+
+# day written as an ordinal (word or sign): forms that the numeric/month-name patterns do not read, so that they take the parsers'
+# "number with month" path; None = the form does not exist for that day
+ORDINAL_LAYOUTS = {
+    'en-us': {'ordinal-word of Month yyyy': lambda d: '%s of %s %d' % (_en_ordinal_word(d), MONTHS['en'][d.month - 1], d.year),
+              'the dth of Month, yyyy': lambda d: 'the %d%s of %s, %d' % (d.day, ordinal_suffix(d.day), MONTHS['en'][d.month - 1], d.year)},
+    'pt-br': {'1º de mes de yyyy': _first_only('1º de %s de %d', 'pt'), 'primeiro de mes de yyyy': _first_only('primeiro de %s de %d', 'pt')},
+    'es-es': {'1º de mes de yyyy': _first_only('1º de %s de %d', 'es'), 'primero de mes de yyyy': _first_only('primero de %s de %d', 'es')},
+    'it-it': {'1° mese yyyy': _first_only('1° %s %d', 'it'), 'primo mese yyyy': _first_only('primo %s %d', 'it')},
+    'fr-fr': {'1er mois yyyy': _first_only('1er %s %d', 'fr'), 'premier mois yyyy': _first_only('premier %s %d', 'fr')},
+    'nl-nl': {'de maand yyyy': lambda d: '%de %s %d' % (d.day, MONTHS['nl'][d.month - 1], d.year),
+              'eerste maand yyyy': _first_only('eerste %s %d', 'nl')},
+    'de-de': {'zweiten Monat yyyy': lambda d: ('zweiten %s %d' % (MONTHS['de'][d.month - 1], d.year)) if d.day == 2 else None},
+}
+
+
+def any_layout(culture, name):
+    ls = layouts(culture)
+    return ls[name] if name in ls else ORDINAL_LAYOUTS[culture][name]
+
+
 DATE_CARRIERS = {
     'en-us': ['{}', '{}', 'I will go back on {}', 'the report is due {} at the latest', '{}.', 'it was {}, 2 of us went.'],
     'es-es': ['{}', '{}', 'volveré el {}', '{}.'], 'fr-fr': ['{}', '{}', 'je reviendrai le {}', '{}.'], 'pt-br': ['{}', '{}', 'voltarei em {}', '{}.'],
